@@ -13,13 +13,20 @@ SelItems(G, M) == {n \in G.nodes : n.kind \in M.filter /\ (M.procign \/ ~n.ignor
 SelNames(G, M) == {n.name : n \in SelItems(G, M)}
 FileOfName(G, s) == (CHOOSE n \in G.nodes : n.name = s).file
 
-\* dependency edges between selected units (item mode: edges between selected items; file mode: the
-\* induced edges between the files of selected items, no self edges)
+\* nodes reachable from a set of nodes along the edges of the FULL item graph
+RECURSIVE ReachAll(_, _)
+ReachAll(E, S) == LET S2 == S \cup {e[2] : e \in {d \in E : d[1] \in S}} IN IF S2 = S THEN S ELSE ReachAll(E, S2)
+
+\* order constraints between selected units.
+\* item mode: a selected item must come before every selected item it reaches in the full graph -- also when the
+\*   path runs through items that are NOT selected (other kinds such as generic interfaces, ignored items): the
+\*   dependency order is that of the whole graph, restricted to the selected items;
+\* file mode: the induced edges between the files of selected items with a direct edge (SGraph.as_filegraph).
 UnitEdges(G, M) ==
-  LET E == {e \in G.edges : e[1] \in SelNames(G, M) /\ e[2] \in SelNames(G, M)}
-  IN IF M.filegraph
-     THEN {<<FileOfName(G, e[1]), FileOfName(G, e[2])>> : e \in {d \in E : FileOfName(G, d[1]) # FileOfName(G, d[2])}}
-     ELSE E
+  IF M.filegraph
+  THEN LET E == {e \in G.edges : e[1] \in SelNames(G, M) /\ e[2] \in SelNames(G, M)}
+       IN {<<FileOfName(G, e[1]), FileOfName(G, e[2])>> : e \in {d \in E : FileOfName(G, d[1]) # FileOfName(G, d[2])}}
+  ELSE UNION {{<<a, b>> : b \in (ReachAll(G.edges, {a}) \cap SelNames(G, M)) \ {a}} : a \in SelNames(G, M)}
 Units(G, M) == IF M.filegraph THEN {n.file : n \in SelItems(G, M)} ELSE SelNames(G, M)
 
 \* units that must have been visited before u: callers before callees, reversed in reverse mode
